@@ -260,7 +260,7 @@ def run_shard(shard, ctx):
                 acc.n += 1
                 acc.nontrivial.add('coincident/%s/%s/%s' % (e1, e2, pos))
         for d in (2.0, 2.04, 2.3, 2.499, 2.501, 2.7, 3.2):
-            for opts in ((), ('-i', 'A:2,B:12'), ('-i', 'A:2'), ('-d',), ('--protonate-all',)):
+            for opts in ((), ('-i', 'A:2,B:12'), ('-i', 'A:2'), ('-d',), ('--protonate-all',), ('custom-model-pka',)):
                 bridge_run(dict(kind='bridge-run', d=d, opts=list(opts)), acc)
     return acc
 
@@ -273,6 +273,13 @@ def bridge_run(case, acc):
     dist = math.sqrt(sum((getattr(sg[0], c) - getattr(sg[1], c)) ** 2 for c in 'xyz')) / 1000.0
     text = gen.to_text(s)
     opts = tuple(case.get('opts', ()))
+    if opts == ('custom-model-pka',):     # a parameter file that gives the cysteine sulfur a model pKa of its own
+        import os
+        from . import c02
+        path = os.path.abspath('c11_custom.cfg')
+        with open(path, 'w') as fh:
+            fh.write(c02.cfg_variants()[(1, 0, 0)] + '\ncustom_model_pkas CYS-SG 8.30\n')
+        opts = ('-p', path)
     mol = pk.run(text, opts)
     acc.n += 1
     acc.nontrivial.add('bridge-run/%s/%s' % (d, ' '.join(opts)))
